@@ -568,7 +568,39 @@ var engProfiles = map[string]engProfile{
 	"match": {chains: 0.3},
 }
 
+// engrep: the same case N times on fresh WAFs; any difference between repetitions is reported
+func execEngRep(a []string) string {
+	first := execEng(a)
+	for i := 0; i < 12; i++ {
+		if o := execEng(a); o != first {
+			return "UNSTABLE " + first + " ||| " + o
+		}
+	}
+	return first
+}
+
 func init() {
+	engines["engrep"] = &engine{Exec: execEngRep, Gen: func(c *ctx) {
+		p := engProfiles["cache"]
+		for i := 0; i < c.n; i++ {
+			cs := genEngCase(c.r, p)
+			// repeated names within and across collections
+			for k := 0; k < 2; k++ {
+				cs.Get = append(cs.Get, [2]string{gen.Field(c.r.Pick("a", "b", "A")), gen.Field(c.r.Pick(eVals...))})
+				cs.Post = append(cs.Post, [2]string{gen.Field(c.r.Pick("a", "b", "A")), gen.Field(c.r.Pick(eVals...))})
+			}
+			b, _ := json.Marshal(cs)
+			obs := c.run("engrep", string(b))
+			if strings.HasPrefix(obs, "UNSTABLE") {
+				c.stats.Hit("unstable")
+			}
+			if strings.Contains(obs, "; m=-") {
+				c.stats.Hit("fired:none")
+			} else {
+				c.stats.Hit("fired:some")
+			}
+		}
+	}}
 	engines["eng"] = &engine{Exec: execEng, Gen: func(c *ctx) {
 		prof := strings.TrimPrefix(c.arg, "profile=")
 		if strings.HasPrefix(c.arg, "focus=") {
